@@ -228,3 +228,59 @@ func init() {
 		}
 	})
 }
+
+func init() {
+	reg := registry["C15"]
+	reg.Meta.Rules["C15.8"] = "a heap ID can hold the length of every object the heap accepts: where a heap header is built, the width of the ID's length field is computed (by the module's width function) from a value that is at least the MaxManagedObjectSize stored next to it, and does not depend on the block size parameter (InsertObject admits objects up to MaxManagedObjectSize whatever the block size)"
+	reg.Rules = append(reg.Rules, func(c *Ctx, r *Result) {
+		n := 0
+		for _, fn := range c.LibFuncs() {
+			if shortPkg(fnPkgPath(fn)) != "structures" {
+				continue
+			}
+			var lenStore, maxStore *FieldStore
+			for _, fs := range c.DirectFieldStores(fn) {
+				fs := fs
+				if fs.Fn != fn {
+					continue
+				}
+				switch fs.Key {
+				case "structures.WritableHeapHeader.HeapLengthSize":
+					lenStore = &fs
+				case "structures.WritableHeapHeader.MaxManagedObjectSize":
+					maxStore = &fs
+				}
+			}
+			if lenStore == nil || maxStore == nil || lenStore.Val == nil || maxStore.Val == nil {
+				continue
+			}
+			cons := c.Name(fn) + "#length-field-wide-enough"
+			v := stripConv(lenStore.Val)
+			if k, _ := fieldLoadKey(v); k != "" {
+				n++
+				r.Hold("C15.8", cons, c.InstrPos(lenStore.In), "copied from the header read from the file")
+				continue
+			}
+			n++
+			if len(dataParams(v)) > 0 {
+				r.Viol("C15.8", cons, c.InstrPos(lenStore.In), "the width of the length field depends on a parameter of "+c.Name(fn)+" while the admitted object size does not: an object of MaxManagedObjectSize bytes may not fit the field")
+				continue
+			}
+			call, ok := v.(*ssa.Call)
+			if !ok || call.Call.StaticCallee() == nil || len(call.Call.Args) != 1 {
+				r.Undec("C15.8", cons, c.InstrPos(lenStore.In), "width not computed by a single call of a width function")
+				continue
+			}
+			a, ok1 := c.constEval(call.Call.Args[0])
+			m, ok2 := c.constEval(maxStore.Val)
+			if !ok1 || !ok2 {
+				r.Undec("C15.8", cons, c.InstrPos(lenStore.In), "argument of the width function or MaxManagedObjectSize is not a constant")
+				continue
+			}
+			r.Check(a >= m, "C15.8", cons, c.InstrPos(lenStore.In), "length width = "+call.Call.StaticCallee().Name()+"("+itoa(int(a))+"), MaxManagedObjectSize = "+itoa(int(m)))
+		}
+		if n == 0 {
+			r.Undec("C15.8", "structures#length-field-wide-enough", "", "no function builds a heap header with both fields")
+		}
+	})
+}
